@@ -111,6 +111,8 @@ pub enum SOp {
     /// `import_namespace` of document `n` with write or read capability
     Import { n: usize, write: bool },
     OpenRep { n: usize },
+    /// open through `Store::load_replica_info` (what the store actor does)
+    OpenInfo { n: usize },
     CloseRep { n: usize },
     /// remote insert (any open state; opens and closes around it unless already open)
     Put { n: usize, a: usize, key: Vec<u8>, c: Option<usize>, ts: u64 },
@@ -234,6 +236,10 @@ impl<'a> StoreWorld<'a> {
         // policy
         let pol = store.get_download_policy(&nsid)?;
         self.lines.push(Line::model(format!("tgetpolicy 1 {nsh}"), policy_tok(&pol)));
+        if self.focus == "C15" {
+            // specification: the policy set last since the document was created, else the default
+            self.lines.push(Line::oracle(format!("sgetpolicy 1 {nsh}"), policy_tok(&pol)));
+        }
         Ok(())
     }
 
@@ -287,6 +293,27 @@ impl<'a> StoreWorld<'a> {
                     Ok(r) => {
                         let kind = u8::from(r.capability().kind());
                         drop(r);
+                        self.open[*n] = true;
+                        format!("ok {kind}")
+                    }
+                    Err(iroh_docs::store::OpenError::NotFound) => "err:not-found".to_string(),
+                    Err(e) => format!("err:{e}"),
+                };
+                self.lines.push(Line::model(format!("topen 1 {}", self.nshex(*n)), imp));
+            }
+            SOp::OpenInfo { n } => {
+                let nsid = self.nsid(*n);
+                let imp = match self.rs.store.load_replica_info(&nsid) {
+                    Ok(_info) => {
+                        // the capability kind as the store lists it
+                        let kind = self
+                            .rs
+                            .store
+                            .list_namespaces()?
+                            .filter_map(|r| r.ok())
+                            .find(|(id, _)| *id == nsid)
+                            .map(|(_, k)| u8::from(k))
+                            .unwrap_or(0);
                         self.open[*n] = true;
                         format!("ok {kind}")
                     }
@@ -390,6 +417,10 @@ impl<'a> StoreWorld<'a> {
                     Err(e) => format!("err:{e}"),
                 };
                 let ok = imp == "ok";
+                if self.focus == "C16" && (ok || imp == "err:not-closed") {
+                    // specification: removal is refused exactly while the document is open
+                    self.lines.push(Line::oracle(format!("sisopen 1 {}", self.nshex(*n)), if ok { "closed" } else { "open" }));
+                }
                 self.lines.push(Line::model(format!("tremove 1 {}", self.nshex(*n)), imp));
                 if ok && self.focus == "C16" {
                     // specification: nothing of the document can be observed any more
